@@ -1037,8 +1037,8 @@ def witness_map_import(ctx):
 def run(ctx):
     pending = []
     pending += witness_map_import(ctx)
-    cases = load_corpus() + [dict(w) for w in WITNESSES] + classification_cases(env.rng("C07-shapes", 0), ctx.n(120, 2600))
-    pending += run_libraries(ctx, ctx.n(6, 60), histories=ctx.n(2, 4))
+    cases = load_corpus() + [dict(w) for w in WITNESSES] + classification_cases(env.rng("C07-shapes", 0), ctx.n(120, 5000))
+    pending += run_libraries(ctx, ctx.n(6, 120), histories=ctx.n(2, 4))
     pending += run_classification(ctx, cases)
     # the three witnesses of the _refuted lemmas behave on the implementation as the lemmas say
     for w in cases:
@@ -1061,6 +1061,7 @@ def replay(ctx, rep):
     c = rep.get("case", {})
     if c.get("kind") == "classify":
         pending = run_classification(ctx, [{"req": c["req"], "resp": c["resp"], "tags": ["replay"]}], label="replay")
+        pending = [(p[0] or rep.get("signature"), p[1], p[2]) for p in pending]
         report(ctx, pending)
         for p in pending:
             print("replay:", p[1])
@@ -1088,6 +1089,7 @@ def replay(ctx, rep):
         eval_drive(ctx, D, c["info"], 0, c["request_b64"], dict(c["call"]), out, checks, pending)
         failing, errors, _ = coq.eval_checks("c07replay", IMPORTS, "", checks)
         ctx.oblige("replay: pager run = Model.iterate", not failing and not errors, "; ".join(failing + errors)[:800])
+        pending = [(p[0] or rep.get("signature"), p[1], p[2]) for p in pending]
         report(ctx, pending)
         for p in pending:
             print("replay:", p[1])
